@@ -232,12 +232,15 @@ def gen_cases(ctx, rng, n):
             tdesc = dict(k="slice", elem=ty)
         elif rng.random() < 0.08:
             tdesc = rng.choice([INT, dict(k="slice", elem=INT), dict(k="ptr", elem=ty), dict(k="map"), dict(k="iface")])
-        cases.append(dict(id="b%d" % i, mode=mode, type=tdesc, bkind=bkind, blocks=blocks, prev=rng.choice([0, 0, 2])))
+        cases.append(dict(id="b%d" % i, mode=mode, type=tdesc, bkind=bkind, blocks=blocks, prev=rng.choice([0, 0, 2]),
+                          prefill=rng.random() < 0.35))
     return cases
 
 
 def model_item(c):
     mode = dict(nil="n", value="v", nilptr="z", ptr="p")[c["mode"]]
+    if c.get("prefill") and c["mode"] == "ptr":
+        mode = "q"
     bk = dict(struct="s", slice="l", none="n", unknown="u")[c["bkind"]]
     return ("bind", c["id"], F(mode, enc_type(c["type"]), bk, *[enc_val(b) for b in c["blocks"]]))
 
@@ -295,7 +298,7 @@ def check_C15(ctx):
         if not r:
             continue
         ctx.count(1, casehash(json.dumps(c, sort_keys=True)))
-        case = dict(mode=c["mode"], type=c["type"], bkind=c["bkind"], blocks=c["blocks"])
+        case = dict(mode=c["mode"], type=c["type"], bkind=c["bkind"], blocks=c["blocks"], prefill=c.get("prefill", False))
         if r["class"] != "ok":
             ctx.violation("Bind %s: %s" % (r["class"], r.get("panic", "")[:300]), case, impl=r, theorem="C15_total", key="bind-" + r["class"])
             continue
